@@ -430,6 +430,8 @@ pub struct Proc {
     pub out: Vec<u8>,
     pub err: Vec<u8>,
     pub timed_out: bool,
+    /// CPU seconds (user + system) the child had consumed when the watchdog killed it
+    pub cpu_s: f64,
 }
 impl Proc {
     pub fn out_s(&self) -> String {
@@ -480,11 +482,23 @@ pub fn spawn_tool(args: &[String], stdin: &[u8], env: &[(String, String)], cwd: 
     });
     let start = std::time::Instant::now();
     let mut timed_out = false;
+    let mut cpu_s = 0.0f64;
     let st = loop {
         match child.try_wait() {
             Ok(Some(st)) => break st,
             Ok(None) => {
                 if start.elapsed().as_secs() >= timeout_s {
+                    // was it computing all the time (a hang of its own) or waiting / starved?
+                    if let Ok(stat) = std::fs::read_to_string(format!("/proc/{}/stat", child.id())) {
+                        if let Some(rest) = stat.rsplit(") ").next() {
+                            let f: Vec<&str> = rest.split(' ').collect();
+                            // fields 14 (utime) and 15 (stime) of the whole line; `rest` starts at field 3
+                            if f.len() > 12 {
+                                let ticks = f[11].parse::<f64>().unwrap_or(0.0) + f[12].parse::<f64>().unwrap_or(0.0);
+                                cpu_s = ticks / 100.0;
+                            }
+                        }
+                    }
                     let _ = child.kill();
                     timed_out = true;
                     break child.wait().expect("wait");
@@ -495,7 +509,7 @@ pub fn spawn_tool(args: &[String], stdin: &[u8], env: &[(String, String)], cwd: 
         }
     };
     let _ = t_in.join();
-    Proc { status: st.code(), signal: st.signal(), out: t_out.join().unwrap(), err: t_err.join().unwrap(), timed_out }
+    Proc { status: st.code(), signal: st.signal(), out: t_out.join().unwrap(), err: t_err.join().unwrap(), timed_out, cpu_s }
 }
 
 pub fn scratch_cleanup_thread() {
